@@ -99,6 +99,19 @@ def encodings(rng, toks):
     yield U.fragment_for(toks, non_ascii_raw=True)
     extra = set(rng.sample("abf01-._~!$&'()*+,;=:@?", 4))
     yield U.fragment_for(toks, extra=extra)
+    # the fragment is percent-decoded as a whole before it is read as a pointer: an escaped separator ('%2F') or tilde
+    # ('%7E') is a separator or tilde like any other
+    plain = U.fragment_for(toks)
+    if "/" in plain or "~" in plain:
+        out = []
+        for ch in plain:
+            if ch == "/" and rng.random() < 0.6:
+                out.append(rng.choice(["%2F", "%2f"]))
+            elif ch == "~" and rng.random() < 0.6:
+                out.append(rng.choice(["%7E", "%7e"]))
+            else:
+                out.append(ch)
+        yield "".join(out)
 
 
 _SHARED = []
